@@ -52,7 +52,7 @@ def gen_cases(seed, tier):
     for _ in range(1500 if quick else 20000):
         s = docgen.soup(rnd, MATH_SYMS + extra, 2, 12)
         cases.append(PC.mk_case('default', s, False, 'soup'))
-    cextra = ['\\mt', '\\mm', '\\ma', '\\begin{em}', '\\end{em}', '\\begin{eb}', '\\end{eb}', '[', ']', '$$', '!!']
+    cextra = ['\\mt', '\\mm', '\\mx', '\\my', '\\ma', '\\begin{em}', '\\end{em}', '\\begin{eb}', '\\end{eb}', '[', ']', '$$', '!!']
     for _ in range(1000 if quick else 12000):
         s = docgen.soup(rnd, MATH_SYMS + cextra, 2, 12)
         cases.append(PC.mk_case('custom', s, False, 'soup'))
@@ -62,10 +62,78 @@ def gen_cases(seed, tier):
     for c in cases:
         s = c['desc']['s']
         c['nt'] = any(x in s for x in ('$', '\\(', '\\[', '\\text', '\\ensuremath', 'equation', 'align', '\\mt', '\\mm', '{em}'))
+    # custom math delimiters (parsing-state configuration; real code only: the parse entries of the model start
+    # from the walker's default state): documents written as an alternation of text and formulas
+    for _ in range(300 if quick else 4000):
+        cases.append(_delim_case(rnd))
     return cases
 
 
+DELIM_SETS = [
+    {'inline': [['$', '$'], ['<<', '>>']], 'display': [['$$', '$$'], ['\\[', '\\]']]},
+    {'inline': [['$`', '`$'], ['\\(', '\\)']], 'display': [['$$', '$$']]},
+    {'inline': [['$', '$']], 'display': [['[[', ']]'], ['$$', '$$']]},
+    {'inline': [['|', '!'], ['$', '$']], 'display': [['\\[', '\\]']]},
+]
+
+
+def _delim_case(rnd):
+    ds = rnd.choice(DELIM_SETS)
+    parts, expect = [], []
+    for _ in range(rnd.randint(1, 5)):
+        if rnd.random() < 0.5:
+            t = rnd.choice(['a', 'b c', ' ', 'word ', 'x.y'])
+            parts.append(t)
+            if expect and expect[-1][0] == 'chars':
+                expect[-1] = ('chars', expect[-1][1] + t)
+            else:
+                expect.append(('chars', t))
+        else:
+            kind = rnd.choice(['inline', 'display'])
+            o, cl = rnd.choice(ds[kind])
+            body = rnd.choice(['x', 'x y', 'a+b', ' n '])
+            parts.append(o + body + cl)
+            expect.append((kind, body))
+    s = ''.join(parts)
+    return {'wire': [999], 'nt': True,
+            'desc': {'ctx': 'default', 's': s, 'tolerant': False, 'origin': 'custom-delimiters', 'delims': ds,
+                     'expect': [list(e) for e in expect]}}
+
+
+def _oracle_delims(d):
+    from pylatexenc.latexwalker import LatexWalker, LatexWalkerParseError
+    from pylatexenc.latexnodes.parsers import LatexGeneralNodesParser
+    s, ds = d['s'], d['delims']
+    # two adjacent formulas with the same one-character delimiter, or text ending where a delimiter starts, are
+    # ambiguous by construction: only unambiguous layouts are judged
+    w = LatexWalker(s, tolerant_parsing=False)
+    ps = w.make_parsing_state(latex_inline_math_delimiters=[tuple(x) for x in ds['inline']],
+                              latex_display_math_delimiters=[tuple(x) for x in ds['display']])
+    try:
+        nl, _ = w.parse_content(LatexGeneralNodesParser(), parsing_state=ps)
+    except LatexWalkerParseError as e:
+        return ('well-formed-custom-delimiter-document-rejected', {'error': str(e)[:160], 'expected': d['expect']})
+    except Exception as e:
+        return ('strict-raised-%s' % type(e).__name__, {'message': str(e)[:160]})
+    table = {o: ('inline', c) for o, c in ds['inline']}
+    table.update({o: ('display', c) for o, c in ds['display']})
+    res = _check(nl, (False, None), [], table)
+    if res:
+        return res
+    got = []
+    for n in nl:
+        if treedump.kind(n) == '$':
+            got.append([n.displaytype, s[n.pos + len(n.delimiters[0]):n.pos_end - len(n.delimiters[1])]])
+        else:
+            got.append(['chars', n.latex_verbatim()])
+    if got != d['expect']:
+        return ('custom-delimiter-formulas-split-wrongly', {'expected': d['expect'], 'observed': got})
+    return None
+
+
 def impl(c):
+    if c['desc'].get('origin') == 'custom-delimiters':
+        return 'BADIN'
     return PC.impl_parse(c)
 
 
@@ -88,14 +156,14 @@ def _arg_modes(spec, mode):
     return out
 
 
-def _check(n, mode, path):
+def _check(n, mode, path, table=None):
     """every node reachable from n must carry the mode implied by its ancestors"""
     k = treedump.kind(n)
     if k is None:
         return None
     if k == 'L':
         for j, x in enumerate(n if isinstance(n, (list, tuple)) else n.nodelist):
-            r = _check(x, mode, path + [j])
+            r = _check(x, mode, path + [j], table)
             if r:
                 return r
         return None
@@ -103,25 +171,26 @@ def _check(n, mode, path):
         return ('node-mode-not-implied', {'node': treedump.dump(n)[:200], 'expected': list(mode), 'path': path})
     if k == '$':
         op = n.delimiters[0]
-        if op not in DISPLAY:
+        tb = DISPLAY if table is None else table
+        if op not in tb:
             return ('math-unknown-delimiter', {'node': treedump.dump(n)[:200]})
-        dt, cl = DISPLAY[op]
+        dt, cl = tb[op]
         if n.displaytype != dt or n.delimiters[1] != cl:
             return ('math-displaytype-or-closing-delimiter', {'node': treedump.dump(n)[:200]})
-        return _check(n.nodelist, (True, op), path + ['body'])
+        return _check(n.nodelist, (True, op), path + ['body'], table)
     if k == 'G':
-        return _check(n.nodelist, mode, path + ['body'])
+        return _check(n.nodelist, mode, path + ['body'], table)
     pa = getattr(n, 'nodeargd', None)
     if pa is not None and pa.argnlist:
         ams = _arg_modes(n.spec, mode) if getattr(n, 'spec', None) is not None else []
         for j, a in enumerate(pa.argnlist):
             m = ams[j] if j < len(ams) else mode
-            r = _check(a, m, path + ['arg%d' % j])
+            r = _check(a, m, path + ['arg%d' % j], table)
             if r:
                 return r
     if k == 'E':
         bm = (True, None) if getattr(n.spec, 'is_math_mode', None) else mode
-        return _check(n.nodelist, bm, path + ['body'])
+        return _check(n.nodelist, bm, path + ['body'], table)
     return None
 
 
@@ -156,6 +225,8 @@ def _dollar_reference(s):
 
 def oracle(c):
     d = c['desc']
+    if d.get('origin') == 'custom-delimiters':
+        return _oracle_delims(d)
     r = PC.real_parse(d)
     if r[0] != 'ok' or r[1] is None:
         s = d['s']
